@@ -14,6 +14,7 @@ import (
 	"os"
 	"reflect"
 	"runtime"
+	"runtime/debug"
 	"strconv"
 	"strings"
 	"sync"
@@ -69,6 +70,10 @@ type SessionSpec struct {
 	CloseErr bool `json:"close_err,omitempty"`
 	// ExitCloses: the handler's OnExit calls s.Close() itself (a harmless, common way to make sure the session is closed)
 	ExitCloses bool `json:"exit_closes,omitempty"`
+	// ManySmall: that many further sends of 1-3 bytes are queued (the number of queued items, not their volume)
+	ManySmall int `json:"many_small,omitempty"`
+	// StartTwice: Start() is called a second time
+	StartTwice bool `json:"start_twice,omitempty"`
 }
 
 type CaseSess struct {
@@ -88,7 +93,7 @@ func GenSess(t *rapid.T) CaseSess {
 	for i := 0; i < n; i++ {
 		var s SessionSpec
 		for j, k := 0, rapid.SampledFrom([]int{0, 0, 1, 2, 3, 6, 8}).Draw(t, "nsends"); j < k; j++ {
-			sz := rapid.SampledFrom([]int{1, 1, 2, 7, 64, 1000, 4096}).Draw(t, "size")
+			sz := rapid.SampledFrom([]int{1, 1, 2, 7, 64, 1000, 4096, 4097, 8191, 8192, 8193, 12000, 16383, 16384, 16385, 32768, 65535}).Draw(t, "size")
 			if rapid.IntRange(0, 14).Draw(t, "invalid") == 0 {
 				sz = 0
 			}
@@ -98,13 +103,17 @@ func GenSess(t *rapid.T) CaseSess {
 		s.PeerWrites = rapid.SampledFrom([]int{0, 0, 1, 2, 5}).Draw(t, "peerwrites")
 		if rapid.IntRange(0, 2).Draw(t, "fails") == 0 {
 			s.FailAt = rapid.IntRange(1, 3).Draw(t, "failat")
-			s.FailKind = rapid.SampledFrom([]string{"error", "panic"}).Draw(t, "failkind")
+			s.FailKind = rapid.SampledFrom([]string{"error", "panic", "panic", "panic-error", "panic-int", "panic-runtime"}).Draw(t, "failkind")
 		}
 		s.Events = rapid.SampledFrom([][]string{{"local-close"}, {"local-close"}, {"peer-close"}, {"local-close", "peer-close"}, {"peer-close", "local-close"}, {"local-close", "local-close"}, {}}).Draw(t, "events")
 		s.Concurrent = rapid.Bool().Draw(t, "concurrent")
 		s.OwnHandler = rapid.IntRange(0, 3).Draw(t, "ownhandler") == 0
 		s.CloseErr = rapid.IntRange(0, 4).Draw(t, "closeerr") == 0
 		s.ExitCloses = rapid.IntRange(0, 3).Draw(t, "exitcloses") == 0
+		if rapid.IntRange(0, 7).Draw(t, "manysmall") == 0 {
+			s.ManySmall = rapid.SampledFrom([]int{100, 129, 300, 1000, 2000}).Draw(t, "nmanysmall")
+		}
+		s.StartTwice = rapid.IntRange(0, 5).Draw(t, "starttwice") == 0
 		if rapid.IntRange(0, 5).Draw(t, "bulk") == 0 {
 			s.Bulk = rapid.SampledFrom([]int{16, 64}).Draw(t, "nbulk")
 			s.PeerDelayMs = rapid.SampledFrom([]int{0, 20, 60}).Draw(t, "peerdelay")
@@ -131,6 +140,9 @@ func GenSess(t *rapid.T) CaseSess {
 		s.BulkSize = genBulkSize(t, s)
 		s.PeerDelayMs = rapid.SampledFrom([]int{0, 20, 60}).Draw(t, "focusdelay")
 		s.PeerWrites = rapid.SampledFrom([]int{0, 0, 0, 1}).Draw(t, "focuspeerwrites")
+		if rapid.IntRange(0, 3).Draw(t, "focusmany") == 0 {
+			s.ManySmall = rapid.SampledFrom([]int{129, 300, 1000, 2000}).Draw(t, "focusnmany")
+		}
 	}
 	return c
 }
@@ -172,6 +184,8 @@ type sessRun struct {
 	conn         *countingConn
 	peer         net.Conn
 	exits        atomic.Int32
+	exitsViaMgr  atomic.Int32 // OnExit calls that arrived at the manager-wide handler
+	exitsViaOwn  atomic.Int32 // OnExit calls that arrived at the session's own handler
 	exited       chan struct{}
 	invoked      atomic.Int32
 	accepted     [][]byte // payloads whose Send returned nil before the events
@@ -195,8 +209,16 @@ func (h *handler) Read(s *stcp.Session) error {
 	}
 	n := int(r.invoked.Add(1))
 	if r.spec.FailAt > 0 && n == r.spec.FailAt {
-		if r.spec.FailKind == "panic" {
+		switch r.spec.FailKind {
+		case "panic":
 			panic(fmt.Sprintf("handler panic of session %d", r.idx))
+		case "panic-error":
+			panic(r.ownErr)
+		case "panic-int":
+			panic(r.idx + 42)
+		case "panic-runtime":
+			var m map[string]int
+			m["x"] = r.idx // a runtime.Error (assignment to entry in nil map)
 		}
 		return r.ownErr
 	}
@@ -204,10 +226,17 @@ func (h *handler) Read(s *stcp.Session) error {
 	return s.Read(b[:])
 }
 
-func (h *handler) OnExit(s *stcp.Session) {
+func (h *handler) OnExit(s *stcp.Session) { h.onExit(s, false) }
+
+func (h *handler) onExit(s *stcp.Session, own bool) {
 	r := h.get(s)
 	if r == nil {
 		return
+	}
+	if own {
+		r.exitsViaOwn.Add(1)
+	} else {
+		r.exitsViaMgr.Add(1)
 	}
 	if r.spec.ExitCloses {
 		s.Close()
@@ -222,13 +251,18 @@ func (h *handler) OnExit(s *stcp.Session) {
 type ownHandler struct{ h *handler }
 
 func (o *ownHandler) Read(s *stcp.Session) error { return o.h.Read(s) }
-func (o *ownHandler) OnExit(s *stcp.Session)     { o.h.OnExit(s) }
+func (o *ownHandler) OnExit(s *stcp.Session)     { o.h.onExit(s, true) }
 
 // connClosed reports whether the session closed its connection: counted on the wrapper for net.Pipe; for TCP
 // seen from the peer (its reads end with EOF or an error once the server side is closed).
 func connClosed(transport string, r *sessRun) bool {
 	if transport != "tcp" {
 		return r.conn.closes.Load() > 0
+	}
+	// the session has the real *net.TCPConn: closed means its descriptor is gone (any further call reports
+	// net.ErrClosed) - a mere shutdown also shows the peer an end of stream, but keeps the descriptor
+	if err := r.conn.Conn.SetReadDeadline(time.Time{}); err == nil || !errors.Is(err, net.ErrClosed) {
+		return false
 	}
 	if r.spec.PeerReads {
 		select {
@@ -493,9 +527,22 @@ func ExecSess(c CaseSess) *vkit.Result {
 		if r.spec.Bulk > 0 {
 			res.Class("bulk-sends")
 		}
+		if r.spec.ManySmall > 0 && r.spec.ManySmall <= 5000 {
+			for j := 0; j < r.spec.ManySmall; j++ {
+				p := payload(r.idx, 5000+j, 1+j%3)
+				if err := r.sess.Send(p); err == nil {
+					r.accepted = append(r.accepted, p)
+				}
+			}
+			res.Class("many-small-sends")
+		}
 	}
 	for _, r := range runs {
 		r.sess.Start()
+		if r.spec.StartTwice {
+			r.sess.Start()
+			res.Class("start-called-twice")
+		}
 	}
 	// (a session may already have ended by now, e.g. a handler failing at once: only the upper bound is certain)
 	if got := mgr.ConnCount(); got > before+int32(len(runs)) || got < before {
@@ -675,6 +722,10 @@ func ExecSess(c CaseSess) *vkit.Result {
 		if n := r.exits.Load(); n != 1 {
 			return res.Failf("exit-callback-count", "session %d (%+v): OnExit ran %d times", r.idx, r.spec, n)
 		}
+		// a session that was given its own handler reports its end to that handler, the others to the manager's
+		if own, mgrN := r.exitsViaOwn.Load(), r.exitsViaMgr.Load(); (r.spec.OwnHandler && (own != 1 || mgrN != 0)) || (!r.spec.OwnHandler && (own != 0 || mgrN != 1)) {
+			return res.Failf("exit-callback-count", "session %d (%+v): the exit was reported %d times to the session's own handler and %d times to the manager's handler", r.idx, r.spec, own, mgrN)
+		}
 		if !waitFor(func() bool { return connClosed(c.Transport, r) }, patience) {
 			return res.Failf("conn-not-closed", "session %d (%+v): the session ended but never closed its connection", r.idx, r.spec)
 		}
@@ -806,6 +857,21 @@ func ownListenPorts() map[int]bool {
 	return out
 }
 
+// socketFDs counts the socket descriptors of this process.
+func socketFDs() int {
+	fds, err := os.ReadDir("/proc/self/fd")
+	if err != nil {
+		return -1
+	}
+	n := 0
+	for _, fd := range fds {
+		if l, err := os.Readlink("/proc/self/fd/" + fd.Name()); err == nil && strings.HasPrefix(l, "socket:[") {
+			n++
+		}
+	}
+	return n
+}
+
 type dialled struct {
 	conn           net.Conn
 	closedByServer atomic.Bool // the client observed EOF / an error without having closed itself
@@ -834,6 +900,9 @@ func ExecSrv(c CaseSrv) *vkit.Result {
 	// The server listens on port 0 itself (no probe-then-reuse window in which another
 	// process could take the port, or dial ours); the port it got is read back from the
 	// process's own listening sockets in /proc.
+	// no garbage collection during the case: a leaked connection must not be closed behind our back by a finalizer
+	defer debug.SetGCPercent(debug.SetGCPercent(-1))
+	fdBase := socketFDs()
 	h := &holdHandler{}
 	var mgr stcp.IConnMgr
 	var srv *stcp.Server
@@ -1044,6 +1113,19 @@ func ExecSrv(c CaseSrv) *vkit.Result {
 	}
 	if m := int(maxSeen.Load()); m > c.MaxConn {
 		return res.Failf("count-exceeds-max", "ConnCount was seen at %d, above the configured maximum %d", m, c.MaxConn)
+	}
+	// every connection the server took - kept or refused - is closed in the end: once all clients have closed and the
+	// server is shut, the process has as many socket descriptors as before the case
+	if fdBase >= 0 {
+		for _, d := range all {
+			d.clientClosed.Store(true)
+			d.conn.Close()
+		}
+		waitFor(func() bool { return mgr.ConnCount() == 0 && len(sessionGoroutines()) == 0 }, patience)
+		_ = srv.Close()
+		if !waitFor(func() bool { return socketFDs() <= fdBase }, patience) {
+			return res.Failf("surplus-not-closed/descriptor-leak", "%d dials against max %d, all clients closed, server closed: the process holds %d socket descriptors, %d before the case - connections the server took were never closed", c.Dials+c.Redials, c.MaxConn, socketFDs(), fdBase)
+		}
 	}
 	return res
 }
